@@ -29,6 +29,7 @@ struct Run : ContBase {
         std::string r;
         if (k == 3) return r;                                   // empty key
         size_t len = k == 0 ? (size_t)s.range(1, 4) : k == 1 ? (size_t)s.range(5, 24) : (size_t)s.range(25, 200);
+        if (k == 2 && s.chance(1, 4)) { static const size_t edge[] = {128, 256, 512, 1024}; len = edge[s.range(0, 3)] + (size_t)s.range(0, 2) - 1; }   // long keys around power-of-two sizes
         for (size_t i = 0; i < len; i++) { int ch = s.chance(1, 6) ? (int)s.range(0x80, 0xff) : (int)"abcXYZ019_-"[s.range(0, 10)]; r.push_back((char)ch); }
         return r;
     }
